@@ -116,7 +116,10 @@ LeaveRule(x, F) ==
             THEN [x2 EXCEPT !.bufs[Len(x2.bufs)] = Visible(@)] ELSE x2
   IN IF x.ret = "fail" THEN Return(DropBuf(x3), "fail")
      ELSE IF g[n].mod = "_" THEN Return(MergeBuf(x3), "ok")
-     ELSE Return(Emit1(DropBuf(x3), <<n, F.start, x3.pos, TopOf(x3.bufs)>>), "ok")
+     \* a non-silent rule that matched takes the innermost pending tag (rule.py: state.tag_stack.pop())
+     ELSE LET tg == IF x3.tags = <<>> THEN "" ELSE TopOf(x3.tags)
+              x4 == IF x3.tags = <<>> THEN x3 ELSE [x3 EXCEPT !.tags = ButLast(@)]
+          IN Return(Emit1(DropBuf(x4), <<n, F.start, x4.pos, TopOf(x4.bufs), tg>>), "ok")
 
 \* ---- state.py fail(): furthest failure position -------------------------------
 \* (the expected / unexpected label sets are not modelled: no statement pins them; C01, C15 compare them between runs)
@@ -142,7 +145,10 @@ EvalStep(x, e) ==
     [] e.k = "any"   -> TermQuiet(x, P < Len(inp), 1)
     [] e.k = "soi"   -> TermQuiet(x, P = 0, 0)
     \* EOI is a built-in (normal) rule: it always emits its pair; an enclosing atomic rule filters it
-    [] e.k = "eoi"   -> IF P = Len(inp) THEN Return(Emit1(x, <<"EOI", P, P, <<>>>>), "ok") ELSE Return(x, "fail")
+    [] e.k = "eoi"   -> IF P # Len(inp) THEN Return(x, "fail")
+                        ELSE LET tg == IF x.tags = <<>> THEN "" ELSE TopOf(x.tags)
+                                 x1 == IF x.tags = <<>> THEN x ELSE [x EXCEPT !.tags = ButLast(@)]
+                             IN Return(Emit1(x1, <<"EOI", P, P, <<>>, tg>>), "ok")
     [] e.k = "ref"   -> EnterRule(x, e.n)
     [] e.k = "seq"   -> IF e.es = <<>> THEN Return(x, "ok")
                         ELSE Replace(NewBuf(x), <<[f |-> "seq", es |-> e.es, i |-> 1], EvalF(e.es[1])>>)
@@ -153,7 +159,9 @@ EvalStep(x, e) ==
     [] e.k \in {"plus", "exact", "min", "max", "minmax"} -> Replace(x, <<EvalF(Unroll(e))>>)
     [] e.k = "and"   -> Replace(NewBuf(Checkpoint(x)), <<[f |-> "and"], EvalF(e.e)>>)
     [] e.k = "not"   -> Replace([NewBuf(Checkpoint(x)) EXCEPT !.negd = @ + 1], <<[f |-> "not"], EvalF(e.e)>>)
-    [] e.k = "tag"   -> Replace(x, <<EvalF(e.e)>>)
+    \* group.py / terminals.py Identifier: "with state.tag(t)": the tag is pending while the term is parsed; tags are NOT
+    \* part of what checkpoint() saves
+    [] e.k = "tag"   -> Replace([x EXCEPT !.tags = Append(@, e.t)], <<[f |-> "tag"], EvalF(e.e)>>)
     \* stack terminals (terminals.py)
     [] e.k = "pushlit" -> Return([x EXCEPT !.ustk = Append(@, e.s), !.dstk = D!PushF(@, e.s)], "ok")
     [] e.k = "push"  -> Replace(NewBuf(x), <<[f |-> "push", start |-> P], EvalF(e.e)>>)
@@ -178,6 +186,8 @@ ReturnStep(x, F) ==
   LET ok == x.ret = "ok"
   IN
   CASE F.f = "rule" -> LeaveRule(x, F)
+    \* leaving "with state.tag(t)": pops whatever is on top, if anything (state.py tag())
+    [] F.f = "tag"  -> Return(IF x.tags = <<>> THEN x ELSE [x EXCEPT !.tags = ButLast(@)], x.ret)
     \* sequence.py: no restore on failure - the position is left where the failing element left it
     [] F.f = "seq"  -> IF ~ok THEN Return(DropBuf(x), "fail")
                        ELSE IF F.i = Len(F.es) THEN Return(MergeBuf(x), "ok")
@@ -231,7 +241,7 @@ M0 == [ctl |-> <<EvalF(Ref("r"))>>, ret |-> "none",
        usnaps |-> <<>>, rsnaps |-> <<>>, asnaps |-> <<>>, poshist |-> <<>>,
        bufs |-> << <<>> >>, tr |-> <<>>,
        fp |-> -1, negd |-> 0, supp |-> FALSE,
-       dstk |-> D!St(<<>>, <<>>, <<>>)]
+       dstk |-> D!St(<<>>, <<>>, <<>>), tags |-> <<>>]
 
 Init == /\ g \in Pick(Grammars)
         /\ inp \in Inputs
@@ -243,13 +253,26 @@ Spec == Init /\ [][Next]_vars
 -----------------------------------------------------------------------------
 Halted == m.ctl = <<>>
 Result == IF m.ret = "ok" THEN [ok |-> TRUE, pairs |-> m.bufs[1]] ELSE [ok |-> FALSE]
+RECURSIVE Untag(_)
+Untag(ps) == [i \in 1..Len(ps) |-> <<ps[i][1], ps[i][2], ps[i][3], Untag(ps[i][4])>>]
+UntaggedResult == IF m.ret = "ok" THEN [ok |-> TRUE, pairs |-> Untag(m.bufs[1])] ELSE [ok |-> FALSE]
 
-\* the checkpoint protocol computes the by-value semantics
-Refines == Halted => Result = Outcome(g, "r", inp, k)
+\* the checkpoint protocol computes the by-value semantics (PestSem has no tags: which pair a tag lands on is pinned by no
+\* statement; the machine models what the code does and the harness compares it with the code)
+Refines == Halted => UntaggedResult = Outcome(g, "r", inp, k)
+
+\* C06: every tag in a returned tree is a tag written in the grammar; no tag is pending when parse() returns
+RECURSIVE TagsOf(_), TagsIn(_)
+TagsOf(e) == CASE e.k = "tag" -> {e.t} \cup TagsOf(e.e)
+               [] e.k \in {"seq", "alt"} -> UNION {TagsOf(e.es[i]) : i \in 1..Len(e.es)}
+               [] e.k \in {"opt", "star", "plus", "exact", "min", "max", "minmax", "and", "not", "push"} -> TagsOf(e.e)
+               [] OTHER -> {}
+TagsIn(ps) == UNION {(IF ps[i][5] = "" THEN {} ELSE {ps[i][5]}) \cup TagsIn(ps[i][4]) : i \in 1..Len(ps)}
+TagsFromGrammar == (Halted /\ m.ret = "ok") => TagsIn(m.bufs[1]) \subseteq UNION {TagsOf(g[n].body) : n \in DOMAIN g}
 
 \* nothing is left open when parse() returns or raises
 Balanced == Halted => /\ m.poshist = <<>> /\ m.usnaps = <<>> /\ m.rsnaps = <<>> /\ m.asnaps = <<>>
-                      /\ m.rstk = <<>> /\ m.adepth = 0 /\ Len(m.bufs) = 1
+                      /\ m.rstk = <<>> /\ m.adepth = 0 /\ Len(m.bufs) = 1 /\ m.tags = <<>>
 
 Backtracking(F) == F.f \in {"alt", "opt", "star", "and", "not"} \/ (F.f = "trivia" /\ F.ph \in {"ws", "cm"})
 NOpen(p(_)) == Cardinality({i \in 1..Len(m.ctl) : p(m.ctl[i])})
@@ -284,6 +307,6 @@ FurthestInRange == /\ m.fp = -1 \/ (k <= m.fp /\ m.fp <= Len(inp))
                    /\ Halted => (m.negd = 0 /\ ~m.supp)
 
 \* ---- emission for the conformance harness -----------------------------------------
-OutJ(o) == IF o.ok THEN o.pairs ELSE 0
+OutJ(o) == IF o.ok THEN o.pairs ELSE 0     \* pairs as <<rule, start, end, children, tag>>
 Emit == Halted => PrintT(ToJson([g |-> g, inp |-> inp, k |-> k, out |-> OutJ(Result), tr |-> m.tr, fp |-> m.fp]))
 =============================================================================
